@@ -445,7 +445,7 @@ pub fn gen(stream: &str, tier: &str, seed: u64) -> Vec<String> {
                 let p = gen_v3(&mut rng, i % V3_TYPES, sz);
                 out.push(format!("enc v3 {}", crate::v3text::show(&p)));
             }
-            for p in crate::pgen::sweep_v3(thorough) {
+            for p in model_sweep_v3(thorough, 8_300) {
                 out.push(format!("enc v3 {}", crate::v3text::show(&p)));
             }
             // just outside the valid domain
@@ -470,7 +470,7 @@ pub fn gen(stream: &str, tier: &str, seed: u64) -> Vec<String> {
         "v3dec" | "v3poll" | "v3fault" => {
             if stream == "v3dec" {
                 // the grid sweeps as FRAMES (valid, so every decoder and the specification must accept them)
-                for p in crate::pgen::sweep_v3(thorough) {
+                for p in model_sweep_v3(thorough, 4_200) {
                     if let Ok(e) = p.encode() {
                         let e = e.as_ref();
                         if e.len() <= 40_000 {
@@ -578,7 +578,7 @@ pub fn gen(stream: &str, tier: &str, seed: u64) -> Vec<String> {
                 let p = gen_v5(&mut rng, i % V5_TYPES, sz, pmode, i / 7);
                 out.push(format!("enc v5 {}", crate::v5text::show(&p)));
             }
-            for p in crate::pgen::sweep_v5(thorough) {
+            for p in model_sweep_v5(thorough, 8_300) {
                 out.push(format!("enc v5 {}", crate::v5text::show(&p)));
             }
             for extra in [
@@ -606,7 +606,7 @@ pub fn gen(stream: &str, tier: &str, seed: u64) -> Vec<String> {
                     out.push(format!("poll v5 {} - eof", hex(&f)));
                 }
                 // the grid sweeps as FRAMES (valid, so every decoder and the specification must accept them)
-                for p in crate::pgen::sweep_v5(thorough) {
+                for p in model_sweep_v5(thorough, 4_200) {
                     if let Ok(e) = p.encode() {
                         let e = e.as_ref();
                         if e.len() <= 40_000 {
@@ -892,6 +892,28 @@ pub fn gen(stream: &str, tier: &str, seed: u64) -> Vec<String> {
                         out.push(format!("poll v5 {} - eof", hex(&f)));
                     }
                 }
+                // EVERY declared property length 0 ..= true length + 2 over a few sections per position (the section
+                // then ends at every byte of every property; the rest of the frame is laid out as if it were right)
+                let mut r2 = Rng::new(seed ^ 0xc0de_cafe);
+                for i in 0..(if thorough { 40 } else { 10 }) {
+                    let snapshot = r2.clone();
+                    let _ = props_frame(&mut r2, host, i * 5 + (i % 3));
+                    let true_len = PROPS_LEN.with(|c| c.get());
+                    if true_len > 160 {
+                        continue;
+                    }
+                    for d in 0..=true_len + 2 {
+                        DECLARED_OVERRIDE.with(|c| c.set(Some(d)));
+                        let f = props_frame(&mut snapshot.clone(), host, i * 5 + (i % 3));
+                        DECLARED_OVERRIDE.with(|c| c.set(None));
+                        if as_spec {
+                            out.push(format!("spec v5 {}", hex(&f)));
+                        } else {
+                            out.push(format!("dec v5 {}", hex(&f)));
+                            out.push(format!("poll v5 {} - eof", hex(&f)));
+                        }
+                    }
+                }
             }
         }
         "sib" => {
@@ -982,11 +1004,11 @@ pub fn gen(stream: &str, tier: &str, seed: u64) -> Vec<String> {
         "v3cat" => out.extend(crate::catalogue::stream::<crate::fam::V3>(tier, seed)),
         "v5cat" => out.extend(crate::catalogue::stream::<crate::fam::V5>(tier, seed)),
         "enca" => {
-            for (k, p) in crate::pgen::sweep_v3(thorough).iter().enumerate() {
+            for (k, p) in model_sweep_v3(thorough, 8_300).iter().enumerate() {
                 let sink = ["-", "g", "a1,a7,p,a4000", "g,a3,a200,p,a5", "a130,a2,a1"][k % 5];
                 out.push(format!("enca v3 {} {}", sink, crate::v3text::show(p)));
             }
-            for (k, p) in crate::pgen::sweep_v5(thorough).iter().enumerate() {
+            for (k, p) in model_sweep_v5(thorough, 8_300).iter().enumerate() {
                 let sink = ["-", "g", "a1,a7,p,a4000", "g,a3,a200,p,a5", "a130,a2,a1"][k % 5];
                 out.push(format!("enca v5 {} {}", sink, crate::v5text::show(p)));
             }
@@ -1323,6 +1345,12 @@ fn std_allowed(host: &str) -> &'static [u8] {
     }
 }
 
+thread_local! {
+    /// `props_frame`: declare this property length instead of the true one / the length of the last section built
+    static DECLARED_OVERRIDE: std::cell::Cell<Option<usize>> = std::cell::Cell::new(None);
+    static PROPS_LEN: std::cell::Cell<usize> = std::cell::Cell::new(0);
+}
+
 fn props_frame(rng: &mut Rng, host: &str, i: usize) -> Vec<u8> {
     let allowed = std_allowed(host);
     let mut ids: Vec<u8> = Vec::new();
@@ -1360,6 +1388,8 @@ fn props_frame(rng: &mut Rng, host: &str, i: usize) -> Vec<u8> {
     // one frame in six declares a property length that is WRONG by a few bytes (the section then ends inside
     // or beyond its last property; the rest of the packet is laid out as if the length were right)
     let declared = if rng.chance(1, 6) { (props.len() as i64 + *rng.pick(&[-9i64, -7, -4, -3, -2, -1, 1, 2, 5])).max(0) as usize } else { props.len() };
+    PROPS_LEN.with(|c| c.set(props.len()));
+    let declared = DECLARED_OVERRIDE.with(|c| c.get()).unwrap_or(declared);
     put_varint(&mut section, declared);
     if rng.chance(1, 5) {
         // the property length spelled NON-MINIMALLY (padded with 80…00): tolerated by the codec
@@ -1522,6 +1552,21 @@ pub fn tiny_frames(fam: &str, thorough: bool) -> Vec<String> {
 /// replaced or deleted at every position, from the syntax characters, NUL and a letter), in both orders and after
 /// a repeated first element: a decoder that validates an element relative to its predecessor (shared prefix,
 /// sibling fast path) must reach the same verdict as one that validates it alone.
+/// the grid packets that go through the Lean model: without the code lists of more than 8,300 elements (the
+/// model's list code is quadratic; `max` = 8,300 in the encoder streams, 4,200 in the decoder streams; the
+/// implementation-side oracles take the whole grid)
+/// beyond 4,200 elements only the lists of 8,191..8,194 codes (and only where `max` allows them)
+fn too_long(n: usize, max: usize) -> bool {
+    n > max || (n > 4_200 && !(8_191..=8_194).contains(&n))
+}
+fn model_sweep_v3(thorough: bool, max: usize) -> Vec<mqtt_proto::v3::Packet> {
+    crate::pgen::sweep_v3(thorough).into_iter().filter(|p| !matches!(p, mqtt_proto::v3::Packet::Suback(s) if too_long(s.topics.len(), max))).collect()
+}
+fn model_sweep_v5(thorough: bool, max: usize) -> Vec<mqtt_proto::v5::Packet> {
+    use mqtt_proto::v5::Packet;
+    crate::pgen::sweep_v5(thorough).into_iter().filter(|p| !matches!(p, Packet::Suback(s) if too_long(s.topics.len(), max)) && !matches!(p, Packet::Unsuback(s) if too_long(s.topics.len(), max))).collect()
+}
+
 pub fn sibling_frames(v3: bool, thorough: bool) -> Vec<Vec<u8>> {
     let frame = |first: u8, body: Vec<u8>| {
         let mut f = vec![first];
@@ -1655,7 +1700,10 @@ pub fn dictionary_frames() -> Vec<Vec<u8>> {
     // a final character cut short by 1..3 bytes, overlong forms, surrogates, beyond U+10FFFF, lone continuation,
     // lead + non-continuation — after prefixes that put it on either side of 16/32/64-byte block boundaries,
     // at the very end and followed by one more ASCII byte; plus the valid neighbours of each
-    let bads: [&[u8]; 20] = [
+    let bads: [&[u8]; 25] = [
+        // other encodings that pass for UTF-8 in the wild: CESU-8 / Java writeUTF surrogate PAIRS (high+low, byte by
+        // byte), reversed pair, modified UTF-8 NUL, a UTF-16 BOM, Latin-1 é
+        &[0xed, 0xa0, 0xbd, 0xed, 0xb8, 0x80], &[0xed, 0xaf, 0xbf, 0xed, 0xbf, 0xbf], &[0xed, 0xb8, 0x80, 0xed, 0xa0, 0xbd], &[0xc0, 0x80], &[0xff, 0xfe, 0x61, 0x00],
         &[0xc3], &[0xe2], &[0xe2, 0x82], &[0xf0], &[0xf0, 0x9f], &[0xf0, 0x9f, 0x98], &[0xdf], &[0xef, 0xbf], &[0xf4, 0x8f, 0xbf],
         &[0xc0, 0xaf], &[0xe0, 0x80, 0xaf], &[0xf0, 0x80, 0x80, 0xaf], &[0xed, 0xa0, 0x80], &[0xed, 0xbf, 0xbf], &[0xf4, 0x90, 0x80, 0x80], &[0xf5, 0x80, 0x80, 0x80],
         &[0x80], &[0xc3, 0x28], &[0xc3, 0xa9], &[0xf0, 0x9f, 0x98, 0x80],
